@@ -105,7 +105,8 @@ Definition gabor_freq_resp (l2 : bool) (std center lowest highest : R) (width k 
 Definition gabor_ir_abs (l2 : bool) (std t : R) : R :=
   exp (- (t ^ 2) / gabor_ir_denom_term std + gabor_ir_const_term l2 std).
 
-(* Gaussian integral, TAKEN AS DEFINITION:  int_R exp(-a u^2) du = sqrt(PI / a), a > 0 *)
+(* Gaussian integral int_R exp(-a u^2) du, a > 0: its closed form; that it IS that improper
+   integral is proved in C05/Gauss.v (gaussian_integral) and C05/GaborIntegrals.v *)
 Definition gauss_integral (a : R) : R := sqrt (PI / a).
 (* int |G(omega)|^2 d omega / max |G|^2  for one image *)
 Definition gabor_erb_ang (l2 : bool) (std : R) : R :=
